@@ -293,6 +293,24 @@ class World:
 
         if ev["op"] not in ("build", "set_target") or i != (ev.get("a") or 1) - 1:
             return None
+        # a target may be a mesh with a connectivity of ITS OWN (the other diagonal of the quadrilateral): an alignment - also a
+        # piecewise-affine one, whose triangulation is the source's - retargeted to it is the map a fresh construction to the same
+        # POINTS gives, and its aligned source lands on them
+        T3 = fitted_to + np.array([0.37, -0.21]) + 0.03 * fitted_to[::-1]
+        try:
+            ref3 = _ctor(cfg)(self.source(cfg), PointCloud(T3.copy()))
+            a3 = _ctor(cfg)(self.source(cfg), PointCloud(fitted_to.copy()))
+            a3.set_target(TriMesh(T3.copy(), trilist=np.array([[1, 2, 3], [1, 3, 0]])))
+            g3, w3 = np.asarray(a3.apply(probe), dtype=float), np.asarray(ref3.apply(probe), dtype=float)
+            as3, ar3 = np.asarray(a3.aligned_source().points, dtype=float), np.asarray(ref3.aligned_source().points, dtype=float)
+        except Exception as e:
+            from ..core import from_library
+
+            if not from_library(e):
+                raise
+            return tag + ": retargeting to a mesh that carries its own triangle list failed (%s: %s)" % (type(e).__name__, str(e)[:100])
+        if not np.allclose(g3, w3, rtol=0, atol=1e-6 * max(1.0, self.diam)) or not np.allclose(as3, ar3, rtol=0, atol=1e-6 * max(1.0, self.diam)):
+            return tag + ": retargeted to a mesh that carries its own (different) triangle list, the alignment is not the map a fresh construction to the same points gives"
         for dt in (np.float32, np.int64, np.uint16, np.uint32):
             if np.dtype(dt).kind == "u":
                 # unsigned pixel coordinates: the same problem shifted into the positive quadrant (the fit of the shifted sets is
@@ -318,6 +336,26 @@ class World:
                 return tag + ": refused / failed on the same point sets stored as %s (%s: %s)" % (np.dtype(dt).name, type(e).__name__, str(e)[:100])
             if not np.allclose(got, fresh.apply(probe), rtol=0, atol=1e-4 * max(1.0, self.diam)):
                 return tag + ": the fit to the same point sets stored as %s is a different map" % np.dtype(dt).name
+            # ... and an alignment BUILT on such point sets is retargeted like any other: to a target that is not whole-numbered
+            # (float64) it becomes the map a fresh construction gives, and its inverse still undoes it
+            T2 = fitted_to + np.array([0.37, -0.21]) + 0.03 * fitted_to[::-1]
+            try:
+                fresh2 = _ctor(cfg)(self.source(cfg), PointCloud(T2.copy()))
+                other.set_target(PointCloud(T2.copy()))
+                got2 = np.asarray(other.apply(probe), dtype=float)
+                want2 = np.asarray(fresh2.apply(probe), dtype=float)
+                back2 = np.asarray(other.pseudoinverse().apply(got2), dtype=float) if not cfg.startswith("tps") else probe
+            except Exception as e:
+                from ..core import from_library
+
+                if not from_library(e):
+                    raise
+                return tag + ": an alignment built on %s point sets fails when retargeted to a float64 target / inverted afterwards (%s: %s)" % (
+                    np.dtype(dt).name, type(e).__name__, str(e)[:100])
+            if not np.allclose(got2, want2, rtol=0, atol=1e-4 * max(1.0, self.diam)):
+                return tag + ": an alignment built on %s point sets and retargeted to a float64 target differs from a fresh construction" % np.dtype(dt).name
+            if not np.allclose(back2, probe, rtol=0, atol=1e-4 * max(1.0, self.diam)):
+                return tag + ": the inverse of an alignment built on %s point sets and retargeted does not undo it" % np.dtype(dt).name
         return None
 
     def _shadow(self, i, cfg, view, tag):
